@@ -7,7 +7,13 @@ import oscgen as G
 import jetgen as J
 
 ID = "C02"
-GEN = ["gen_particle_tables"]
+GEN = ["gen_particle_tables", "gen_particle_init", "gen_pobj", "gen_jetscapeloader", "gen_oscarloader"]
+EXTRA_PROPERTY_FILES = ["SrcParticleInit", "SrcPObj", "SrcJetscapeLoader", "SrcOscarLoader"]     # Particle.py: construction of a particle from one line regenerated and proved equal to mk_particle / mk_jet_particle
+SOURCE_TIE_NOTE = ('as C01 (SrcOscarLoader, SrcJetscapeLoader, SrcParticleInit: events=/filters= bookkeeping of both read loops, s'
+    'kip/read line arithmetic, option validation) plus ParticleObjectLoader.py / ParticleObjectStorer.py / BaseStor'
+    'er.__init__ (gen_pobj, runtime Model/PObjRt.v, Properties/SrcPObj.v, 17 theorems: ParticleObjectStorer(list, *'
+    '*kw) observed through particle_list_/num_events_/num_output_per_event_ equals Model/PObj.v pload for every key'
+    'word dictionary incl. error classes)')
 ALLOWED_AXIOMS = []
 TRUSTED = [
     "Coq 8.16.1 kernel + vm_compute; every theorem closed under the global context",
@@ -503,6 +509,19 @@ def oracle_filtered(case, tmp):
             return f"events={sel} + filters=: event labels {ca[:, 0].tolist()}, the selected events are {want_labels}"
     if a.num_events() != len(sizes):
         return f"events={sel} + filters=: num_events() = {a.num_events()} but {len(sizes)} events are held"
+    if case["kind"] == "oscar":
+        # the selected events' own impact parameters (when the filter path dropped no event - with dropped events the footers are
+        # the subject of the recorded finding of C06)
+        lo_ = 0 if sel is None else (sel if isinstance(sel, int) else sel[0])
+        hi_ = n - 1 if sel is None else (sel if isinstance(sel, int) else sel[1])
+        if len(sizes) == hi_ - lo_ + 1:
+            want_b = [float(ev["b"]) for ev in case["doc"]["events"][lo_:hi_ + 1]]
+            try:
+                got_b = [float(x) for x in a.impact_parameters()]
+            except Exception as e:
+                return f"events={sel} + filters=: impact_parameters() raises {type(e).__name__}: {e}"[:300]
+            if got_b != want_b:
+                return f"events={sel} + filters=: impact_parameters() = {got_b}, the selected events' own are {want_b}"
     if case["kind"] == "jet":
         full = _open(case, tmp)
         if tuple(a.get_sigmaGen()) != tuple(full.get_sigmaGen()):
